@@ -226,6 +226,34 @@ def translate(c):
     return out
 
 
+def eor_due(c):
+    """per Flush of the schedule: (End-of-RIB markers due, is a scheduled one among them).
+    One End-of-RIB closes the initial dump of a session (it is buffered behind the dump); one
+    follows a completed route-refresh walk, after everything else of that batch."""
+    out = []
+    chan, reg = [], False
+    due_dump = due_walk = False
+    for o, ls in zip(c['ops'], translate(c)):
+        t = o[0]
+        if t == 'register':
+            chan, reg, due_dump, due_walk = [], True, True, False
+        elif t == 'unregister':
+            chan, reg, due_dump, due_walk = [], False, False, False
+        elif t == 'refresh':
+            if reg: chan.append('w')
+        elif t == 'deliver':
+            if chan and chan.pop(0) == 'w':
+                due_walk = True
+        elif t == 'flush':
+            out.append((int(due_dump) + int(due_walk), due_walk))
+            due_dump = due_walk = False
+        else:
+            for l in ls:
+                n = len(l[2]) if l[0] == 'llgrmark' else int(l[0] == 'set' or (l[0] == 'free' and l[2]))
+                if reg: chan += ['c'] * n
+    return out
+
+
 def refresh_race(c):
     """decidable class of C01-refresh-race: some Refresh runs while a queued change and the
     current RIB disagree on a (dest_id, prefix) binding"""
@@ -346,7 +374,7 @@ class Prop:
                          'no_lost_withdrawal_refuted_by_id_keying',
                          'quiescent_view_eq_fresh_refuted_truncated_dump',
                          'quiescent_view_eq_fresh_refuted_unreported_llgr',
-                         'no_lost_withdrawal_refuted_inline_refresh']
+                         'no_lost_withdrawal_refuted_inline_refresh', 'eor_emission']
     correspondence_name = ('Model/ExportTx.v step vs table::Table + event::export::process_nlri_change + '
                            'peer_tx::PendingTx (harness/daemon/export_c01_hx.rs)')
     rule = ('cases = (neighbour role/address/send-max/add-path, source peers, export policy, schedule of table '
@@ -759,7 +787,16 @@ class Prop:
             return 'panic in the export path'
         established = False
         dirty, refreshed = False, False
+        due = eor_due(c)
+        nflush = 0
         for k, o in enumerate(obs):
+            if o[0] == 3:
+                want, sched = due[nflush] if nflush < len(due) else (0, False)
+                nflush += 1
+                if len(o[3]) != want:
+                    return 'obs %d: %d End-of-RIB marker(s) drained, %d due (one closes the initial dump, one follows a route-refresh walk)' % (k, len(o[3]), want)
+                if sched and o[3][-1] != len(o[2]):
+                    return 'obs %d: the End-of-RIB of a route refresh is not the last thing of its batch' % k
             if o[0] == 4:
                 established = True
             if o[0] == 7:
